@@ -365,6 +365,12 @@ def run(chk):
             chk.rule_prefix = "isr."
             chk.rule_filter = lambda r: r.startswith("I1")
             C06.check_i1(chk, progs[cfg], flow.Program(progs[cfg]))
+            # the event hand-off is race-free only if every send both publishes and wakes (a sender that decides from the
+            # receiver's plain bookkeeping whether to wake reads receivep without ordering) (C06.I2)
+            from . import fib
+            mf = [x for x in progs[cfg] if x.unit == fib.UNIT][0]
+            chk.rule_filter = lambda r: r.startswith("I2")
+            C06.check_i2(chk, mf, fib.Kernel(mf))
             chk.rule_prefix = ""
             chk.rule_filter = None
     check_r4(chk)
